@@ -460,6 +460,28 @@ theorem cleanup_order_matches_source :
 theorem status_discriminants_match_source :
     Extracted.statusDiscriminants = Status.all.map (fun st => (st.name, st.toNat)) := by decide
 
+/-- round 4: `terminate`'s loop body is: pop, kill test, `take_children`, push — the two steps of the
+concurrent model in this order -/
+theorem terminate_loop_matches_source :
+    Extracted.terminateLoopOrder = ["pending.pop", "get_status()", ".kill()", "take_children", "pending.extend"] := by
+  decide
+
+/-- round 4: the child limits of the two link forms are the ones of `Tree.link` / `Tree.linkStart`, the
+supervisor limit is `Draining` for both, and `start` (both runtimes) uses the start link -/
+theorem link_limits_match_source :
+    Extracted.linkChildLimits =
+      [("link", (Status.all.find? (·.toNat == Status.draining.toNat)).map (·.name) |>.getD ""),
+       ("link_starting", (Status.all.find? (·.toNat == Status.stopping.toNat)).map (·.name) |>.getD "")] ∧
+    Extracted.linkSupervisorLimit = Status.draining.name ∧
+    Extracted.startLinkCalls = [("actor.rs", "try_link_starting"), ("inner.rs", "try_link_starting")] := by decide
+
+/-- round 4: which functions are tree-lock regions and which readers are lock-free; the window of a hand-over
+(`linkA` … `linkB`) and of `take_children` (`takeMid`) are where the model puts them -/
+theorem lock_regions_match_source :
+    Extracted.treeLockUsers = [("link_below", true), ("unlink", true), ("take_children", true),
+      ("get_children", false), ("for_each_child", false), ("try_get_supervisor", false)] ∧
+    Extracted.linkReleasesBeforeOldParent = true ∧ Extracted.takeHoldsParentSet = true := by decide
+
 /-! ### Non-vacuity -/
 
 /-- a chain 0 ← 1 ← 2 plus a relink of 2 under 0 and a self-link of 3 -/
@@ -576,3 +598,6 @@ end C05
 #print axioms C05.take_window_end
 #print axioms C05.start_link_gate
 #print axioms C05.start_link_no_gain
+#print axioms C05.terminate_loop_matches_source
+#print axioms C05.link_limits_match_source
+#print axioms C05.lock_regions_match_source
